@@ -157,6 +157,31 @@ def run_c03(res, tier, seed):
             new_texts = list(texts)
             new_texts[k] = render_tokens(toks[:i] + toks[i + 1:])
             cases.append((items, texts, new_texts, k, [f"delete {toks[i]!r} at {i}", "call ending a brace construct that is the last argument of a call"]))
+    # a deeply (but properly) nested definition stands behind the victim: whatever the damage leaves behind in the parser
+    # (a counter, a flag, a mode) must not reach it.  Depths just below powers of two.
+    for _ in range(10 if tier == "quick" else 120):
+        d = rng.choice([30, 31, 62, 63, 126, 127])
+        o, c = rng.choice([(["["], ["]"]), (["#", "("], [")"]), (["f", "("], [")"]), (["{"], ["}"]), (["fn", "(", ")", "{"], ["}"])])
+        deep = ("N", "FUNCTION", [("T", t) for t in ["pub", "fn", "deep", "(", ")", "{"] + o * d + ["1"] + c * d + ["}"]])
+        others = build_file(rng, rng.randrange(2, 4))
+        fvs = [i for i, it in enumerate(others) if it[1] == "FUNCTION"]
+        if not fvs:
+            continue
+        k = rng.choice(fvs)
+        items = others + [deep]
+        texts = [render_tokens(gen_gleam.tokens(it)) for it in items]
+        toks = gen_gleam.tokens(items[k])
+        lo = toks.index("{") + 1
+        hi = len(toks) - 1 - toks[::-1].index("}")
+        for i in list(range(lo, min(hi, lo + 12))) + [hi]:
+            for t in ["!", "-", "as", ":", ",", "todo", "..", "|>", "+"]:
+                new_texts = list(texts)
+                new_texts[k] = render_tokens(toks[:i] + [t] + toks[i:])
+                cases.append((items, texts, new_texts, k, [f"insert {t!r} at {i}", f"a definition nested {d} deep stands behind the victim"]))
+            if i < hi and toks[i] not in BRACES:
+                new_texts = list(texts)
+                new_texts[k] = render_tokens(toks[:i] + toks[i + 1:])
+                cases.append((items, texts, new_texts, k, [f"delete {toks[i]!r} at {i}", f"a definition nested {d} deep stands behind the victim"]))
     # the recorded findings' own inputs, replayed on every run (a finding that stops failing stops being printed)
     for f in common.known_findings().get("findings", []):
         ex = (f.get("example") or {}).get("input") or {}
